@@ -113,6 +113,16 @@ type BMC struct {
 	Counts map[string]int
 }
 
+// ForgetSequenceNumbers empties the duplicate window of the active session (a
+// window that has slid past everything seen so far).
+func (b *BMC) ForgetSequenceNumbers() {
+	b.mu.Lock()
+	if b.Sess != nil {
+		b.Sess.seenSeq = nil
+	}
+	b.mu.Unlock()
+}
+
 func New(cfg Config) *BMC {
 	return &BMC{Cfg: cfg, KeepLog: true, Counts: map[string]int{}}
 }
